@@ -311,3 +311,6 @@ def run(ck, facts):
     body = re.sub(r"//[^\n]*", "", m.group(1)) if m else ""
     ck.expect(bool(m) and re.search(r"return\s*\(?\s*new\s+Int32Array\s*\(\s*wasm\.memory\.buffer\s*,\s*ptr\s*,\s*1\s*\)\s*\)?\s*\[\s*0\s*\]", body) is not None, "R1", "js/runtime.mjs/enumDiscriminant-signed",
               "Int32Array read", "enumDiscriminant no longer reads a signed 32-bit value (`%s`): negative discriminants map to no variant" % body.strip()[:80], "tool/templates/js/runtime.mjs")
+    # the generator that reads an enum out of memory must use that signed reader
+    import c08
+    c08.js_deref_rules(ck, "R1", facts, enum_only=True)
